@@ -76,6 +76,7 @@ structure Sim (q : Q) (s : Spec) : Prop where
   started : q.started = s.started
   pending : q.pending.map (fun p => (p.1, q.mem.read p.2)) = s.pending
   handled : q.handled = s.handled
+  stopped : q.stopped = s.stopped
   evAlloc : q.events.arr < q.mem.next
   pendAlloc : ∀ p ∈ q.pending, p.2.arr < q.mem.next ∧ p.2.arr ≠ q.events.arr
 
@@ -146,7 +147,7 @@ theorem sim_step (grow : Nat → Nat) (q : Q) (s : Spec) (a : QAct) (h : Sim q s
       rw [hq, hs]
       have hother : ∀ p ∈ q.pending, (q.mem.append grow q.events e).1.read p.2 = q.mem.read p.2 :=
         fun p hp => read_append_other grow q.mem q.events e p.2 (h.pendAlloc p hp).2 (h.pendAlloc p hp).1
-      refine ⟨?_, h.started, ?_, h.handled, ?_, ?_⟩
+      refine ⟨?_, h.started, ?_, h.handled, h.stopped, ?_, ?_⟩
       · show (q.mem.append grow q.events e).1.read (q.mem.append grow q.events e).2 = s.buf ++ [e]
         rw [read_append, h.buf]
       · show q.pending.map (fun p => (p.1, (q.mem.append grow q.events e).1.read p.2)) = s.pending
@@ -166,24 +167,34 @@ theorem sim_step (grow : Nat → Nat) (q : Q) (s : Spec) (a : QAct) (h : Sim q s
       have hs : sstep s (.debounce e) = s := by
         simp [sstep, debounceAdd, hlen, hc]
       rw [hq, hs]
-      exact ⟨h.buf, h.started, h.pending, h.handled, h.evAlloc, h.pendAlloc⟩
+      exact ⟨h.buf, h.started, h.pending, h.handled, h.stopped, h.evAlloc, h.pendAlloc⟩
+  | stop =>
+    exact ⟨h.buf, h.started, h.pending, h.handled, rfl, h.evAlloc, h.pendAlloc⟩
   | fire =>
     have hlen : s.buf.length = q.events.len := by rw [← h.buf, read_length]
+    have hst := h.stopped
+    by_cases hstop : q.stopped = true
+    · have hq : qstep grow q .fire = { q with timer := false } := by simp [qstep, qstepWith, hstop]
+      have hs : sstep s .fire = s := by simp [sstep, ← hst, hstop]
+      rw [hq, hs]
+      exact ⟨h.buf, h.started, h.pending, h.handled, h.stopped, h.evAlloc, h.pendAlloc⟩
+    have hstop' : s.stopped = false := by rw [← hst]; simpa using hstop
+    have hstopq : q.stopped = false := by simpa using hstop
     by_cases hc : q.events.len = 0
     · have hq : qstep grow q .fire = { q with timer := false } := by simp [qstep, qstepWith, hc]
       have hs : sstep s .fire = s := by simp [sstep, hlen, hc]
       rw [hq, hs]
-      exact ⟨h.buf, h.started, h.pending, h.handled, h.evAlloc, h.pendAlloc⟩
+      exact ⟨h.buf, h.started, h.pending, h.handled, h.stopped, h.evAlloc, h.pendAlloc⟩
     · have hq : qstep grow q .fire =
           { q with mem := (q.mem.alloc eventBufferSize).1, events := ⟨q.mem.next, 0⟩, timer := false,
                    started := q.started + 1, pending := q.pending ++ [(q.started, q.events)] } := by
-        simp [qstep, qstepWith, hc, flushBuffer, Mem.alloc]
+        simp [qstep, qstepWith, hc, hstopq, flushBuffer, Mem.alloc]
       have hs : sstep s .fire =
           { s with buf := [], started := s.started + 1, pending := s.pending ++ [(s.started, s.buf)],
                    flushed := s.flushed ++ [s.buf] } := by
-        simp [sstep, hlen, hc]
+        simp [sstep, hlen, hc, hstop']
       rw [hq, hs]
-      refine ⟨?_, ?_, ?_, h.handled, ?_, ?_⟩
+      refine ⟨?_, ?_, ?_, h.handled, h.stopped, ?_, ?_⟩
       · simp [Mem.read]
       · show q.started + 1 = s.started + 1
         rw [h.started]
@@ -222,7 +233,7 @@ theorem sim_step (grow : Nat → Nat) (q : Q) (s : Spec) (a : QAct) (h : Sim q s
         rw [hf] at hfind
         simp [sstep, hfind]
       rw [hq, hs]
-      refine ⟨h.buf, h.started, ?_, ?_, h.evAlloc, ?_⟩
+      refine ⟨h.buf, h.started, ?_, ?_, h.stopped, h.evAlloc, ?_⟩
       · show (q.pending.erase p).map (fun p => (p.1, q.mem.read p.2)) = s.pending.erase (p.1, q.mem.read p.2)
         rw [← h.pending, erase_find_map q.mem k q.pending p hf]
       · show q.handled ++ [(p.1, q.mem.read p.2)] = s.handled ++ [(p.1, q.mem.read p.2)]
@@ -256,14 +267,19 @@ theorem sinv_step (s : Spec) (a : QAct) (h : SInv s) : SInv (sstep s a) := by
     split
     · simp; omega
     · exact h.bufLen
+  | stop => exact ⟨h.nflushed, h.batches, h.once, h.bufLen⟩
   | fire =>
+    by_cases hstop : s.stopped = true
+    · have : sstep s .fire = s := by simp [sstep, hstop]
+      rw [this]; exact h
+    have hstop' : s.stopped = false := by simpa using hstop
     by_cases hc : s.buf.length = 0
     · have : sstep s .fire = s := by simp [sstep, hc]
       rw [this]; exact h
     · have hs : sstep s .fire =
           { s with buf := [], started := s.started + 1, pending := s.pending ++ [(s.started, s.buf)],
                    flushed := s.flushed ++ [s.buf] } := by
-        simp [sstep, hc]
+        simp [sstep, hc, hstop']
       rw [hs]
       refine ⟨?_, ?_, ?_, ?_⟩
       · simp [h.nflushed]
@@ -312,7 +328,7 @@ theorem sinv_run (as : List QAct) : ∀ s, SInv s → SInv (srun s as) := by
 
 /-- the batches of the flushes, in order, followed by the buffer are exactly the accepted frames -/
 theorem flushed_accepted (as : List QAct) : ∀ (s : Spec),
-    (srun s as).flushed.flatten ++ (srun s as).buf = s.flushed.flatten ++ s.buf ++ acceptedFrom s.buf.length as := by
+    (srun s as).flushed.flatten ++ (srun s as).buf = s.flushed.flatten ++ s.buf ++ acceptedFrom s.stopped s.buf.length as := by
   induction as with
   | nil => intro s; simp [srun, acceptedFrom]
   | cons a t ih =>
@@ -324,13 +340,36 @@ theorem flushed_accepted (as : List QAct) : ∀ (s : Spec),
       by_cases hc : s.buf.length < eventBufferSize
       · simp [sstep, debounceAdd, acceptedFrom, hc]
       · simp [sstep, debounceAdd, acceptedFrom, hc]
+    | stop => simp [sstep, acceptedFrom]
     | fire =>
-      by_cases hc : s.buf.length = 0
-      · have hb : s.buf = [] := List.eq_nil_of_length_eq_zero hc
-        simp [sstep, acceptedFrom, hb]
-      · simp [sstep, acceptedFrom, hc]
+      cases hst : s.stopped with
+      | true => simp [sstep, acceptedFrom, hst]
+      | false =>
+        by_cases hc : s.buf.length = 0
+        · have hb : s.buf = [] := List.eq_nil_of_length_eq_zero hc
+          simp [sstep, acceptedFrom, hb, hst]
+        · simp [sstep, acceptedFrom, hc, hst]
     | run k =>
       cases hf : s.pending.find? (fun p => p.1 == k) <;> simp [sstep, acceptedFrom, hf]
+
+/-- after `stop` nothing is flushed any more: the handlers started and their batches are those of the flushes before -/
+theorem stopped_step (s : Spec) (a : QAct) (h : s.stopped = true) :
+    (sstep s a).stopped = true ∧ (sstep s a).started = s.started ∧ (sstep s a).flushed = s.flushed := by
+  cases a with
+  | debounce e => exact ⟨h, rfl, rfl⟩
+  | stop => exact ⟨rfl, rfl, rfl⟩
+  | fire => simp [sstep, h]
+  | run k => cases hf : s.pending.find? (fun p => p.1 == k) <;> simp [sstep, hf, h]
+
+theorem stopped_run (as : List QAct) : ∀ (s : Spec), s.stopped = true →
+    (srun s as).started = s.started ∧ (srun s as).flushed = s.flushed := by
+  induction as with
+  | nil => intro s _; exact ⟨rfl, rfl⟩
+  | cons a t ih =>
+    intro s h
+    have ⟨h1, h2, h3⟩ := stopped_step s a h
+    have ⟨h4, h5⟩ := ih (sstep s a) h1
+    exact ⟨h4.trans h2, h5.trans h3⟩
 
 /-- all frames of a schedule, in order of arrival -/
 def frames : List QAct → List Ev
@@ -338,24 +377,30 @@ def frames : List QAct → List Ev
   | .debounce e :: t => e :: frames t
   | _ :: t => frames t
 
-/-- no debounce window receives more than `eventBufferSize` frames (`n` = frames of the current window so far) -/
-def WindowsBounded : Nat → List QAct → Prop
-  | _, [] => True
-  | n, .debounce _ :: t => n < eventBufferSize ∧ WindowsBounded (n + 1) t
-  | _, .fire :: t => WindowsBounded 0 t
-  | n, .run _ :: t => WindowsBounded n t
+/-- no debounce window receives more than `eventBufferSize` frames (`n` = frames of the current window so far; after
+`stop` the window never ends) -/
+def WindowsBounded : Bool → Nat → List QAct → Prop
+  | _, _, [] => True
+  | st, n, .debounce _ :: t => n < eventBufferSize ∧ WindowsBounded st (n + 1) t
+  | st, n, .fire :: t => if st then WindowsBounded st n t else WindowsBounded st 0 t
+  | st, n, .run _ :: t => WindowsBounded st n t
+  | _, n, .stop :: t => WindowsBounded true n t
 
-theorem accepted_all (as : List QAct) : ∀ n, WindowsBounded n as → acceptedFrom n as = frames as := by
+theorem accepted_all (as : List QAct) : ∀ st n, WindowsBounded st n as → acceptedFrom st n as = frames as := by
   induction as with
-  | nil => intro n _; rfl
+  | nil => intro st n _; rfl
   | cons a t ih =>
-    intro n h
+    intro st n h
     cases a with
     | debounce e =>
-      have h' : n < eventBufferSize ∧ WindowsBounded (n + 1) t := h
+      have h' : n < eventBufferSize ∧ WindowsBounded st (n + 1) t := h
       simp only [acceptedFrom, frames, h'.1, if_true]
-      rw [ih (n + 1) h'.2]
-    | fire => exact ih 0 h
-    | run k => exact ih n h
+      rw [ih st (n + 1) h'.2]
+    | fire =>
+      cases st with
+      | true => exact ih true n h
+      | false => exact ih false 0 h
+    | run k => exact ih st n h
+    | stop => exact ih true n h
 
 end C16Queue
